@@ -1,7 +1,7 @@
 (* C03 — proofs about C03/Model.v (and the regenerated C03/Gen.v). *)
 From Coq Require Import ZArith Znumtheory List Bool Lia ZifyBool Ascii String DecimalString.
 From Cffi Require Export C03.MemProofs C03.StoreProofs.
-From Cffi Require Import C03.CExpr C03.Gen C03.Model.
+From Cffi Require Import C03.CExpr C03.CExprFacts C03.Gen C03.Model.
 Import ListNotations.
 Open Scope Z_scope.
 
@@ -66,24 +66,6 @@ Proof. vm_compute. repeat split. Qed.
 
 (* ------------------------------------------------------------------ API-mode converters *)
 
-Lemma wrap_signed_small n z : 0 < n -> - 2 ^ (n - 1) <= z < 2 ^ (n - 1) ->
-  (z + 2 ^ (n - 1)) mod 2 ^ n - 2 ^ (n - 1) = z.
-Proof.
-  intros Hn Hz. assert (2 ^ n = 2 * 2 ^ (n - 1)) as E.
-  { replace n with (1 + (n - 1)) at 1 by lia. rewrite Z.pow_add_r by lia. reflexivity. }
-  rewrite Z.mod_small; lia.
-Qed.
-
-Lemma conv_id t z : fits t z = true -> conv t z = z.
-Proof.
-  unfold fits, conv, tmin, tmax. intros H.
-  destruct t; cbn [is_signed bits] in *.
-  - apply wrap_signed_small; lia.
-  - apply Z.mod_small; lia.
-  - apply wrap_signed_small; lia.
-  - apply Z.mod_small; lia.
-Qed.
-
 Lemma wrapT_id T v : (1 <= isize T)%nat -> in_range T v = true -> ibool T = false -> wrapT T v = v.
 Proof.
   intros Hs Hr Hb. unfold wrapT, in_range in *. rewrite Hb in Hr.
@@ -92,9 +74,6 @@ Proof.
   - apply wrap_signed_small; lia.
   - apply Z.mod_small. lia.
 Qed.
-
-Lemma common_same t : common t t = t.
-Proof. destruct t; reflexivity. Qed.
 
 Lemma check_one_eval N tty tmp c o hi : eval_check N c = Some (o, tty, hi) ->
   fits tty tmp = true -> fits tty hi = true ->
